@@ -194,12 +194,17 @@ def check_one(tag, m, ch, init, ctx):
     ctx.transition()
     ctx.case()
     res = None
+    arg = mk()
+    arg_before = [(a.bpm, a.metronome, int(a.snap.measure), F(a.snap.beat)) for a in arg]
     try:
-        res = TimingMap.reseat_bpm_changes_snap(mk())
+        res = TimingMap.reseat_bpm_changes_snap(arg)
     except Exception as e:
         ctx.check("raises", False, site=dict(site0, entry="reseat_bpm_changes_snap", exc=type(e).__name__), case=case, observed=f"{type(e).__name__}: {e}"[:200], expected="a reseated list")
     if res is not None:
         ctx.passed("raises")
+        # the caller's list still denotes its original changes (their times are what the result must contain)
+        arg_after = [(a.bpm, a.metronome, int(a.snap.measure), F(a.snap.beat)) for a in arg]
+        ctx.check("orig_list_intact", arg_after == arg_before, site=dict(site0), case=case, observed=[(x[0], x[2], str(x[3])) for x in arg_after], expected=[(x[0], x[2], str(x[3])) for x in arg_before])
         try:
             tup = [(r.bpm, r.metronome, int(r.snap.measure), r.snap.beat) for r in res]
             times = integrate(init, tup)
